@@ -85,6 +85,16 @@ pub fn guarded<R>(f: impl FnOnce() -> R) -> Caught<R> {
 pub static PROGRESS: AtomicU64 = AtomicU64::new(0);
 pub static CUR_CASE: AtomicU64 = AtomicU64::new(u64::MAX);
 pub static CUR_CALL: AtomicU64 = AtomicU64::new(0);
+/// incremented by the worker at the start of every case (the watchdog restarts the
+/// case budget when it changes)
+pub static CASE_SEQ: AtomicU64 = AtomicU64::new(0);
+static CASE_MILLIS: AtomicU64 = AtomicU64::new(600_000);
+pub fn set_case_secs(s: f64) {
+    CASE_MILLIS.store((s * 1000.0) as u64, Ordering::Relaxed);
+}
+pub fn case_secs() -> f64 {
+    std::env::var("VERIF_CASE_SECS").ok().and_then(|s| s.parse().ok()).unwrap_or(CASE_MILLIS.load(Ordering::Relaxed) as f64 / 1000.0)
+}
 
 #[inline]
 pub fn tick() {
@@ -121,13 +131,30 @@ pub fn hang_secs() -> f64 {
 /// makes the verdict immune to a stalled or overloaded machine.
 pub fn start_watchdog() {
     let limit = hang_secs();
+    let case_limit = case_secs();
     std::thread::spawn(move || {
         let mut last = PROGRESS.load(Ordering::Relaxed);
         let mut cpu_at = cpu_seconds();
+        let mut seq = CASE_SEQ.load(Ordering::Relaxed);
+        let mut case_cpu_at = cpu_at;
         loop {
             std::thread::sleep(std::time::Duration::from_millis(200));
             let now = PROGRESS.load(Ordering::Relaxed);
             let cpu = cpu_seconds();
+            let sq = CASE_SEQ.load(Ordering::Relaxed);
+            if sq != seq {
+                seq = sq;
+                case_cpu_at = cpu;
+            } else if cpu - case_cpu_at > case_limit {
+                // every call returns, but the case as a whole does not finish: calls that
+                // each stay below the hang limit but are orders of magnitude slower than
+                // any legitimate sample() call (a draw-free loop of 1e9 iterations)
+                let out = std::io::stdout();
+                let mut o = out.lock();
+                let _ = writeln!(o, "H {} {} B", CUR_CASE.load(Ordering::Relaxed), CUR_CALL.load(Ordering::Relaxed));
+                let _ = o.flush();
+                std::process::exit(3);
+            }
             if now != last {
                 last = now;
                 cpu_at = cpu;
@@ -296,6 +323,14 @@ pub trait Engine: Sync {
     fn hang_secs(&self) -> f64 {
         8.0
     }
+    /// CPU seconds after which a whole case counts as not finishing (backstop for calls
+    /// that are individually below the hang limit); about 20x the slowest legitimate case
+    fn case_secs(&self, ctx: &Ctx) -> f64 {
+        match ctx.tier {
+            Tier::Quick => 240.0,
+            Tier::Thorough => 3600.0,
+        }
+    }
     /// whether a violation class counts for this engine's property
     fn judges(&self, _class: &str) -> bool {
         true
@@ -317,6 +352,7 @@ pub trait Engine: Sync {
 pub fn worker_main(engine: &dyn Engine, ctx: &Ctx) -> i32 {
     install_panic_hook();
     set_hang_secs(engine.hang_secs());
+    set_case_secs(engine.case_secs(ctx));
     start_watchdog();
     let stdin = std::io::stdin();
     let stdout = std::io::stdout();
@@ -338,9 +374,15 @@ pub fn worker_main(engine: &dyn Engine, ctx: &Ctx) -> i32 {
         };
         CUR_CASE.store(idx as u64, Ordering::Relaxed);
         CUR_CALL.store(0, Ordering::Relaxed);
+        CASE_SEQ.fetch_add(1, Ordering::Relaxed);
         tick();
+        let cpu0 = cpu_seconds();
         // a panic escaping an engine is a harness error, but report it as data
         let res = panic::catch_unwind(AssertUnwindSafe(|| engine.run_case(ctx, idx)));
+        let res = res.map(|mut r| {
+            r.stat_max("slowest_case_cpu_s", cpu_seconds() - cpu0);
+            r
+        });
         let mut o = stdout.lock();
         match res {
             Ok(r) => {
@@ -460,10 +502,15 @@ pub fn supervise(ctx: &Ctx, n_cases: usize, only: Option<Vec<usize>>) -> RunOutp
                         }
                     } else if let Some(rest) = line.strip_prefix("H ") {
                         let call: Option<u64> = rest.split_whitespace().nth(1).and_then(|s| s.parse().ok());
-                        hangs.push((format!("hang: no progress in {} CPU-s (case call {})", hang_secs(), rest.trim()), call));
+                        let budget = rest.split_whitespace().nth(2) == Some("B");
+                        if budget {
+                            hangs.push((format!("hang(case budget): case {idx} did not finish within {} CPU-s although every call returned (in call {} when stopped)", case_secs(), call.unwrap_or(0)), None));
+                        } else {
+                            hangs.push((format!("hang: no progress in {} CPU-s (case call {})", hang_secs(), rest.trim()), call));
+                        }
                         let _ = child.wait();
                         respawn = true;
-                        if let Some(c) = call {
+                        if let (Some(c), false) = (call, budget) {
                             if hangs.len() <= 3 {
                                 skips.borrow_mut().push((idx, c));
                                 done = false;
@@ -586,6 +633,7 @@ pub fn write_replay(ctx: &Ctx, engine: &dyn Engine, v: &Violation) -> String {
 pub fn run_property(engine: &dyn Engine, ctx: &Ctx) -> i32 {
     let t0 = Instant::now();
     set_hang_secs(engine.hang_secs());
+    set_case_secs(engine.case_secs(ctx));
     match engine.preflight() {
         Ok(msg) => {
             if !msg.is_empty() {
@@ -676,9 +724,12 @@ pub fn finish_run(engine: &dyn Engine, ctx: &Ctx, out: RunOutput, t0: Instant, w
             // the worker could not report which run it was in: the engine reconstructs
             // the self-contained case from (case index, published call number)
             let class = if h.starts_with("hang") { "hang" } else { "crash" };
-            let (mut sig, case) = engine
-                .hang_case(ctx, r.index, call.unwrap_or(0))
+            let (mut sig, case) = call
+                .and_then(|c| engine.hang_case(ctx, r.index, c))
                 .unwrap_or_else(|| (BTreeMap::new(), json!({"rerun_case_index": r.index, "tier": ctx.tier, "seed": ctx.seed})));
+            if call.is_none() {
+                sig.insert("case".to_string(), engine.describe(ctx, r.index));
+            }
             sig.insert("class".to_string(), class.to_string());
             vs.push(Violation { class: class.to_string(), detail: h.clone(), sig, case });
         }
